@@ -15,12 +15,18 @@ import (
 	"fmt"
 	"io"
 	"io/ioutil"
+	"net"
+	"net/url"
+	"path/filepath"
+	"runtime"
 	"sort"
 	"strconv"
 	"strings"
+	"time"
 
 	"bfeverif/harness/internal/vh"
 	"github.com/bfenetworks/bfe/bfe_fcgi"
+	bfe_http "github.com/bfenetworks/bfe/bfe_http"
 )
 
 // ---- RLE byte codec: tokens joined by '.', token = hex digits | <n>x<hh> (n >= 8 copies of byte hh); "-" = empty
@@ -222,8 +228,254 @@ func exec(op string) string {
 		return execReq(f)
 	case "resp":
 		return execResp(f)
+	case "rt":
+		return execRT(f)
 	}
 	return "bad-op"
+}
+
+// ---- rt: the whole Transport.RoundTrip against a fake responder on a loopback listener
+//
+// op `rt <method> <remote> <host> <path> <rawquery> <proto> <scheme> <cl> <root> <env> <hdrs> <body> <sf> <pij> <rhost> <rport> <ruri>`
+//   all strings hex ("-" empty); cl decimal; env = `-` | k=v,k=v ; hdrs = `-` | k:v|v,k:v (the request header map as given)
+//   oracle fields (library functions the model does not re-implement; re-checked here): sf = filepath.Join(root, path),
+//   pij = filepath.Join(root, ""), rhost/rport = net.SplitHostPort(host) (host, "" on error), ruri = URL.RequestURI()
+// result: `<request bytes RLE> <status> <hex body>` | `bad-oracle` | `err:<kind>`
+
+var (
+	rtLn    net.Listener
+	rtCh    = make(chan []byte, 16)
+	rtCount int
+)
+
+const rtReply = "Status: 201 Created\r\nContent-Type: text/plain\r\n\r\nhello"
+
+func rtServe(c net.Conn) {
+	defer c.Close()
+	var got []byte
+	hdr := make([]byte, 8)
+	for {
+		c.SetReadDeadline(time.Now().Add(3 * time.Second))
+		if _, err := io.ReadFull(c, hdr); err != nil {
+			rtCh <- nil
+			return
+		}
+		n := int(hdr[4])<<8 | int(hdr[5]) + int(hdr[6])
+		rest := make([]byte, n)
+		if _, err := io.ReadFull(c, rest); err != nil {
+			rtCh <- nil
+			return
+		}
+		got = append(append(got, hdr...), rest...)
+		if hdr[1] == 5 && hdr[4] == 0 && hdr[5] == 0 { // empty STDIN: end of request
+			break
+		}
+	}
+	out := frame(1, 6, 1, len(rtReply), []byte(rtReply), -len(rtReply)&7)
+	out = append(out, frame(1, 6, 1, 0, nil, 0)...)
+	out = append(out, frame(1, 3, 1, 8, make([]byte, 8), 0)...)
+	c.Write(out)
+	rtCh <- got
+}
+
+func rtInit() {
+	if rtLn != nil {
+		return
+	}
+	var err error
+	if rtLn, err = net.Listen("tcp", "127.0.0.1:0"); err != nil {
+		panic(err)
+	}
+	go func() {
+		for {
+			c, err := rtLn.Accept()
+			if err != nil {
+				return
+			}
+			go rtServe(c)
+		}
+	}()
+}
+
+func unhexS(s string) (string, bool) { b, ok := vh.UnHex(s); return string(b), ok }
+
+func rtOracle(root, path, host string, u *url.URL) []string {
+	rh, rp, err := net.SplitHostPort(host)
+	if err != nil {
+		rh, rp = host, ""
+	}
+	return []string{hexs(filepath.Join(root, path)), hexs(filepath.Join(root, "")), hexs(rh), hexs(rp), hexs(u.RequestURI())}
+}
+
+func hexs(s string) string { return vh.Hex([]byte(s)) }
+
+func execRT(f []string) string {
+	if len(f) != 18 {
+		return "bad-op"
+	}
+	var sv [18]string
+	for _, i := range []int{1, 2, 3, 4, 5, 6, 7, 9} {
+		s, ok := unhexS(f[i])
+		if !ok {
+			return "bad-op"
+		}
+		sv[i] = s
+	}
+	cl, err := strconv.ParseInt(f[8], 10, 64)
+	if err != nil {
+		return "bad-op"
+	}
+	env := map[string]string{}
+	if f[10] != "-" {
+		for _, kv := range strings.Split(f[10], ",") {
+			p := strings.Split(kv, "=")
+			if len(p) != 2 {
+				return "bad-op"
+			}
+			k, _ := unhexS(p[0])
+			v, _ := unhexS(p[1])
+			env[k] = v
+		}
+	}
+	hdr := bfe_http.Header{}
+	if f[11] != "-" {
+		for _, kv := range strings.Split(f[11], ",") {
+			p := strings.Split(kv, ":")
+			if len(p) != 2 {
+				return "bad-op"
+			}
+			k, _ := unhexS(p[0])
+			for _, hv := range strings.Split(p[1], "|") {
+				v, _ := unhexS(hv)
+				hdr[k] = append(hdr[k], v)
+			}
+		}
+	}
+	body, ok := unrle(f[12])
+	if !ok {
+		return "bad-op"
+	}
+	rtInit()
+	u := &url.URL{Scheme: sv[7], Host: rtLn.Addr().String(), Path: sv[4], RawQuery: sv[5]}
+	or := rtOracle(sv[9], sv[4], sv[3], u)
+	for i := range or {
+		if or[i] != f[13+i] {
+			return "bad-oracle"
+		}
+	}
+	req := &bfe_http.Request{Method: sv[1], URL: u, Proto: sv[6], Header: hdr, Body: ioutil.NopCloser(&chunkReader{b: body, n: 4096}),
+		ContentLength: cl, Host: sv[3], RemoteAddr: sv[2]}
+	tr := &bfe_fcgi.Transport{Root: sv[9], EnvVars: env}
+	if rtCount++; rtCount%64 == 0 {
+		runtime.GC() // RoundTrip never closes its connection; let the finalizers do it
+	}
+	resp, rerr := tr.RoundTrip(req)
+	got := <-rtCh
+	if rerr != nil {
+		return "err:roundtrip"
+	}
+	if got == nil {
+		return "err:responder"
+	}
+	b, _ := ioutil.ReadAll(resp.Body)
+	return rle(got) + " " + strconv.Itoa(resp.StatusCode) + " " + vh.Hex(b)
+}
+
+func genRT(r *vh.Rand) string {
+	word := func(lo, hi int) string {
+		n := r.Range(lo, hi)
+		b := make([]byte, n)
+		for i := range b {
+			b[i] = "abcdefghijklmnopqrstuvwxyz0123456789"[r.Intn(36)]
+		}
+		return string(b)
+	}
+	method := r.Pick("GET", "POST", "HEAD", "PUT", "get", "")
+	remote := r.Pick("192.0.2.7:4711", "[2001:db8::1]:443", "198.51.100.2", "[::1]", "10.0.0.1:", ":80", "")
+	host := r.Pick("example.org", "example.org:8080", "[2001:db8::2]:80", "a:b:c", "", "www."+word(1, 8)+".test")
+	path := r.Pick("/", "/index.php", "/a/../b.php", "/x//y.php", "", "/app.php/extra/path", "/sp ace.php", "/"+word(1, 6)+".php")
+	rawq := r.Pick("", "a=1&b=2", "q=%41+b", "x", word(1, 12)+"="+word(0, 5))
+	proto := r.Pick("HTTP/1.1", "HTTP/1.0", "HTTP/2.0", "")
+	scheme := r.Pick("http", "https", "")
+	cl := r.Pick("0", "-1", "5", "1234567890123", strconv.Itoa(r.Intn(100000)))
+	root := r.Pick("/var/www", "/var/www/", "", "/", "rel/dir", "/srv/"+word(1, 5))
+	var env []string
+	if r.Chance(1, 3) {
+		for i, n := 0, r.Range(1, 3); i < n; i++ {
+			k := r.Pick("APP_ENV", "SCRIPT_FILENAME", "HTTP_PROXY", "HTTP_X_CFG", "REMOTE_ADDR", "Path_Info", "DB_"+strings.ToUpper(word(1, 4)))
+			dup := false
+			for _, e := range env {
+				if strings.HasPrefix(e, hexs(k)+"=") {
+					dup = true
+				}
+			}
+			if !dup {
+				env = append(env, hexs(k)+"="+hexs(r.Pick("", "prod", "/cfg/"+word(1, 5), "http://cfg-proxy:3128")))
+			}
+		}
+	}
+	var hs []string
+	seen := map[string]bool{}
+	collided := false
+	addH := func(k string, vs ...string) {
+		if seen[k] {
+			return
+		}
+		seen[k] = true
+		var hv []string
+		for _, v := range vs {
+			hv = append(hv, hexs(v))
+		}
+		hs = append(hs, hexs(k)+":"+strings.Join(hv, "|"))
+	}
+	for i, n := 0, r.Range(0, 6); i < n; i++ {
+		switch r.Intn(14) {
+		case 0:
+			addH(r.Pick("Proxy", "PROXY", "proxy"), "http://evil.example:8080") // httpoxy
+		case 1:
+			addH("Content-Type", r.Pick("text/plain", "application/json", ""))
+		case 2:
+			addH("Content-Length", r.Pick("5", "999", "x"))
+		case 3: // names that collide after the CGI mapping (one pair per case: the driver tries both map orders)
+			if collided {
+				continue
+			}
+			collided = true
+			k := word(1, 5)
+			addH("X-"+k, word(1, 4))
+			addH("X_"+k, word(1, 4))
+		case 4: // attempts to reach protected variables
+			addH(r.Pick("Remote-Addr", "Script-Filename", "Request-Method", "Document-Root", "Server-Name", "Host", "Https", "Path-Info",
+				"Remote_Addr", "Script_Filename", "Content_Length"), r.Pick("127.0.0.1", "/etc/passwd", "on", "evil"))
+		case 5:
+			addH("Cookie", word(1, 8)+"="+word(1, 8), word(1, 3)+"=1")
+		case 6:
+			addH("X-"+word(1, 6), word(0, 5), word(0, 5), word(0, 5))
+		case 7:
+			addH(r.Pick("x-lower", "X-MiXed-case", "WEIRD.name!", "A b", "Http-Proxy", "Proxy-Authorization", "Proxy_"), word(1, 5))
+		default:
+			addH(r.Pick("Accept", "User-Agent", "Accept-Encoding", "Referer", "X-Forwarded-For", "Authorization", "If-None-Match")+r.Pick("", "", "-"+word(1, 3)), word(1, 20))
+		}
+	}
+	j := func(xs []string) string {
+		if len(xs) == 0 {
+			return "-"
+		}
+		return strings.Join(xs, ",")
+	}
+	var bl int
+	switch r.Intn(6) {
+	case 0:
+		bl = 0
+	case 1:
+		bl = r.Range(65490, 65510)
+	default:
+		bl = r.Range(1, 300)
+	}
+	u := &url.URL{Scheme: scheme, Host: "127.0.0.1:1", Path: path, RawQuery: rawq}
+	or := rtOracle(root, path, host, u)
+	return fmt.Sprintf("rt %s %s %s %s %s %s %s %s %s %s %s %s %s", hexs(method), hexs(remote), hexs(host), hexs(path), hexs(rawq),
+		hexs(proto), hexs(scheme), cl, hexs(root), j(env), j(hs), rle(blob(r, bl)), strings.Join(or, " "))
 }
 
 // ---- generation
@@ -480,8 +732,11 @@ func genResp(r *vh.Rand) string {
 }
 
 func gen(r *vh.Rand) string {
-	if r.Chance(3, 5) {
+	switch r.Intn(10) {
+	case 0, 1, 2, 3:
 		return genReq(r)
+	case 4, 5, 6:
+		return genRT(r)
 	}
 	return genResp(r)
 }
